@@ -15,7 +15,7 @@ NCPU = os.cpu_count() or 4
 ALLOWED_AXIOMS = {"propext", "Quot.sound", "Classical.choice"}
 FORBIDDEN_RX = re.compile(r"\bsorry\b|\badmit\b|^axiom |native_decide|bv_decide|implemented_by|\bunsafe |maxHeartbeats 0")
 
-TRANSLATORS = ["extract_reason_codes.py", "extract_utf8_rule.py", "extract_props.py"]
+TRANSLATORS = ["extract_reason_codes.py", "extract_utf8_rule.py", "extract_props.py", "extract_timing.py"]
 
 CXX = "clang++-14"
 CXXFLAGS = ["-std=c++17", "-O1", "-g", "-fsanitize=address,undefined", "-fno-sanitize-recover=all",
